@@ -251,8 +251,13 @@ def check_case(pos, cell, pbc):
                 # come out as 0 or 1), so every lattice translate of the reference centre is accepted
                 for nv in itertools.product(*[(-1, 0, 1) if pbc[k] else (0,) for k in range(3)]):
                     centres.append(rc @ cell + np.array(nv, float) @ cell)
+                # the unweighted periodic centre reported by the library itself must be that reference centre (mod lattice)
                 try:
-                    centres.append(g.get_center_of_mass(at, False))
+                    cu = g.get_center_of_mass(at, False)
+                    if cdiff(cu, rc @ cell) > 1e-7:
+                        viol.append(("com_unweighted", "get_center_of_mass(weight=False)=%s differs from the unweighted circular-mean reference %s" % (cu, rc @ cell)))
+                    else:
+                        centres.append(cu)  # the same point up to a lattice translation chosen by the library
                 except TypeError:
                     pass
             else:
